@@ -18,22 +18,23 @@ def search(c, cfg, missing):
 
 PROP = dict(
     module="M3d.Props.C01",
-    gen=["McTable", "C01Margin"],
-    tie_modules=["M3d.Lemmas.C01MarginTie"],
-    corr=dict(quick=150, thorough=1500),
+    gen=["McTable", "C01Margin", "Kernels"],
+    tie_modules=["M3d.Lemmas.C01MarginTie", "M3d.Lemmas.KernelsTieC01"],
+    corr=dict(quick=150, thorough=800),
     search=search,
     corr_theorems=(
         "mc/ms/bitmap kinds: M3d.C01.mc_* / ms_* (tables, kernel-decided), ms_closed_on_every_lattice, mc_edges_balanced_on_every_lattice, mc_fans_one_cycle_on_every_lattice, bitmap_in_out_one and bitmap_closed_on_every_bitmap; "
         "whole-lattice meshes are assembled from the regenerated table by M3d.Marching.mcMesh/msMesh/bitmapMesh; "
         "msc2f/mcc2f kinds (coarse-to-fine): the driver evaluates the documented cover M3d.C2F.seenAll2/3 m (m+E) on the two labellings and answers with the plain fine mesh: "
         "c2f_ms_closed_under_documented_cover / c2f_mc_edges_balanced_under_documented_cover / c2f_mc_fans_one_cycle_under_documented_cover (via M3d.C12.c2f_ms_sound / c2f_mc_sound) together with the tie module "
+        "M3d.Lemmas.KernelsTieC01 (over the REGENERATED Gen/Kernels.lean: mcCorner_eq / msCorner_eq / mc_mid_eq_gvOf / ms_mid_eq_gv2Of - corner i of mcCornerCoordinates / msCornerCoordinates has the cell's max on axis k iff bit k of i is set, so corners[a].Mid(corners[b]) is the model's vertex position gvOf / gv2Of; quadMinMax_eq - the face key of ExactMesh is M3d.RectMesh.quadKey); "
         "M3d.Lemmas.C01MarginTie (ms/mc_total_ge_extra_plus_two_coarse, c2f_ms_closed_code_margin, c2f_mc_balanced_code_margin: the expansion REGENERATED from the source is at least "
         "E*smallDelta + 2*bigDelta); same msc2f-direct / mcc2f-direct: the same theorems (C2F face multiset = plain fine one); "
         "mcs/mss kinds (MarchingCubesSearch, MarchingCubesSearchFilter, the mesh of MarchingCubesInterior, MarchingSquaresSearch(+Filter)): the driver answers with the plain lattice mesh and the harness snaps every real vertex to the lattice edge it lies STRICTLY inside of: "
-        "search_vertex_strictly_inside_edge, search_positions_distinct, mc_search_edges_balanced_on_every_lattice, mc_search_fans_one_cycle_on_every_lattice, ms_search_closed_on_every_lattice (the searched mesh is the lattice mesh under an injective vertex map, for every solid and iteration count), interior_probe_collapses (the interior probe must not be the vertex); soup3/mcj, soup2/msj (MarchingCubesConj / MarchingSquaresConj): mc_conj_edges_balanced_on_every_lattice, mc_conj_fans_one_cycle_on_every_lattice, ms_conj_closed_on_every_lattice (every injective map back keeps the mesh a closed manifold) + the decider theorems; "
+        "search_vertex_strictly_inside_edge, search_positions_distinct, mc_search_edges_balanced_on_every_lattice, mc_search_fans_one_cycle_on_every_lattice, ms_search_closed_on_every_lattice (the searched mesh is the lattice mesh under an injective vertex map, for every solid and iteration count), interior_probe_collapses (the interior probe must not be the vertex); mcj / msj kinds (MarchingCubesConj / MarchingSquaresConj, the returned mesh mapped forward again onto the lattice of the transformed solid; the driver answers with the plain lattice mesh, every face reversed iff the transform list reverses orientation) and soup3/mcj, soup2/msj (the returned mesh itself): conj_flip_iff_reversing / conj2_flip_iff_reversing (for every invertible affine map back the sign test reverses the faces exactly when det < 0), conj_normals_follow_the_solid / conj2_normals_follow_the_solid (normals point the way they did in the transformed space), mc_conj_outward_on_every_lattice_partial / ms_conj_outward_on_every_lattice_partial (the lattice instances; partial in the positivity of the total volume of the searched mesh, which the driver computes exactly on every case), mc_conj_edges_balanced_on_every_lattice, mc_conj_fans_one_cycle_on_every_lattice, ms_conj_closed_on_every_lattice (closed manifold for every injective map back and either outcome of the sign test) + the decider theorems; "
         "meshrect / meshrect2 kinds (model3d.NewMeshRect / model2d.NewMeshRect, exact triangle / segment multiset = M3d.RectMesh.meshRect / meshRect2): mesh_rect_is_closed_manifold, mesh_rect2_is_closed, exactmesh_quads_face_outward (closed outward manifold for EVERY box of positive extent); "
         "rsmesh kind (RectSet.ExactMesh() after a history of Add/Remove/AddRectSet/RemoveRectSet, exact triangle multiset = M3d.RectMesh.exactMesh on C04's model of the operations): validates the faithful model of exactmesh_face_kept_iff_unshared, exactmesh_shared_face_is_between_adjacent_cells, exactmesh_is_closed, exactmesh_quads_face_outward, rectset_history_positive (with M3d.C04.rectset_history_aligned / M3d.RectSet.hinv); "
-        "soup2/soup3/rectset/rectops verdicts balanced= fans= inout=: soup_closed_manifold_decided, soup_in_out_one_decided (the sort/bucket deciders decide exactly Surface.ClosedManifold / InOutOne); "
+        "soup2o/soup3/rectset/rectops verdicts balanced= fans= inout=: soup_closed_manifold_decided, soup_in_out_one_decided (the sort/bucket deciders decide exactly Surface.ClosedManifold / InOutOne); "
         "rectset/rectops verdicts tri= wind= vol=: exact evaluation of M3d.RectSpec on the real triangles against the boxes as a point set (rectops: the point set of the history, M3d.RectSet.Hist.sem, on the grid of its essential planes) - per instance, no theorem for all inputs"
     ),
     rule=(
@@ -41,7 +42,7 @@ PROP = dict(
         "(b) random lattice labellings up to 4x4x4 / 6x6 (uniform, sparse, dense, noisy checkerboards = ambiguous configurations) and blobs up to 8^3 / 26^2 through MarchingCubes, MarchingCubesFilter, "
         "MarchingSquares(+Filter), Bitmap.Mesh: real triangle/segment lists must equal the model's lists and the deciders must accept; "
         "(c) real outputs of every other generator named by the property (rect, icosahedron, icosphere, polar, cylinder, cone, torus, profile, polytope, height-map, search-refined MC/MS) as id soups "
-        "with exact float coordinates through the deciders + exact signed volume; "
+        "with exact float coordinates through the deciders + exact signed volume (3-D) / exact shoelace sum (2-D: contained side on the right of every segment); "
         "(d) box sets (kind rectset): RectSet.Mesh() on dyadic boxes - blocks with extents 2^-3..200 and beads / crumbs / plates of thickness 2^-4..2^-26 touching along edges or at vertices, placed in the "
         "FIRST and the LAST grid interval of each axis, diagonal chains, integer stairs, the 2^-13 bead on the 100x1x100 block in all four first/last combinations: judged against the boxes as a point set "
         "(closed manifold, per-triangle outward probe, winding number at three generic samples of every grid cell, exact volume); "
@@ -52,22 +53,23 @@ PROP = dict(
         "(f) searched members (kinds mcs/mss): MarchingCubesSearch / MarchingCubesSearchFilter / MarchingCubesInterior / MarchingSquaresSearch(+Filter) with iters in {0,0,1,2,3,5,8,12} on ORACLE solids - a random lattice labelling (as in (b)) whose value "
         "between the lattice points is always outside / always inside / a hash of the probe position / one crossing per lattice edge at k/16 incl. 0 and 16 (surface through a lattice point) - and on the sharp CSG / polytope solids of (e), whose faces lie ON lattice planes "
         "for a quarter of the coordinates: every real vertex must lie strictly inside exactly one lattice edge and the snapped mesh must be the model's lattice mesh; the exact-float mesh also goes through the deciders; "
-        "(g) the discretisation parameter of the parametric generators COMPLETELY over a range: NewMeshPolar for every stops = 3..104 (3..180 thorough) with varying radius functions (nil included) plus random stops up to 420, model2d.NewMeshPolar for every stops up to 208, "
+        "(g) the discretisation parameter of the parametric generators COMPLETELY over a range: NewMeshPolar for every stops = 3..104 (thorough: 105..180 as well - every fourth value per seed with phase = seed mod 4, so the eight seeds of a thorough check cover each value twice) with varying radius functions (nil included) plus random stops up to 420, model2d.NewMeshPolar for every stops up to 208, "
         "cylinders / cones with 3..600 stops, tori up to 92x92 - whether a seam closes is float equality of sin/cos at k*(2*pi/stops), a property of the individual stops value; "
         "(h) box sets built the way a caller may: box by box with Add or as sub-sets merged with AddRectSet (recursively), incl. families where grid planes of one box pass through another (overlap, slab_on_post, cross); histories with Remove / RemoveRectSet "
         "(notches, through-cuts, slices, thin slots, removing exactly an earlier box): ExactMesh() triangle-for-triangle against the model (rsmesh) and Mesh() against the point set of the history (rectops); "
         "(i) NewMeshRect 3-D / 2-D on boxes with extents 2^-30..2^30, offsets up to 2^30, negative and non-dyadic coordinates: exact triangle / segment multiset against the model; "
-        "(j) MarchingCubesConj / MarchingSquaresConj with 1-3 exact orientation-preserving transforms (dyadic translations, axis scalings by powers of two with an even number of negative factors) on the solids of (e), spacing delta/2, delta, 2*delta, through the deciders + exact signed volume. distinct = distinct op lines"
+        "(j) MarchingCubesConj / MarchingSquaresConj with 1-3 exact transforms - dyadic translations, VecScale by +-powers of two (independent signs), Scale by +-2^k, signed permutation matrices with power-of-two factors - about half of the lists ORIENTATION-REVERSING (mirror images, negative scales, reflection matrices, odd numbers of them), on the solids of (e), spacing chosen so that the lattice of the transformed solid stays small: the returned mesh mapped forward again (exactly) and snapped to that lattice must be the lattice mesh, reversed iff the list reverses orientation (faces hashed up to rotation of the vertex order), and the returned mesh itself goes through the deciders + exact signed volume / shoelace sum. distinct = distinct op lines"
     ),
     trusted=[
         "regenerated, not modelled: the 256-row and 16-row lookup tables (dumped by executing mcLookupTable()/msLookupTable() of the current tree through the verif hook; the dump is repeated 20x and must be identical)",
+        "regenerated and TIED (Gen/Kernels.lean, go2lean translation of the current source): model3d.mcCornerCoordinates, model2d.msCornerCoordinates (the corner-index convention the lattice models place their vertices by) and toolbox3d.quadMinMax (= M3d.RectMesh.quadKey) - M3d.Lemmas.KernelsTieC01; the translator itself is validated bit for bit by C06's gk kinds",
         "regenerated, not modelled: the expansion MarchingSquaresC2F/MarchingCubesC2F apply to a fine block's bounds as a function of the caller's extraSpace and the shape of the filter closure (Gen/C01Margin.lean, go/ast); math.Sqrt is uninterpreted with sqrt(x)^2 = x and sqrt(x) >= 0",
         "MECHANISED lifts (all lattice sizes, all labellings with empty outer layer): ms_closed_on_every_lattice (2-D: one incoming and one outgoing segment at every vertex), mc_edges_balanced_on_every_lattice (3-D: every directed edge occurs at most once and its reverse exactly as often), both from kernel-decided local facts (msLocalOk / mcLocalOk) about the regenerated tables, extended to the coarse-to-fine routines under the documented cover; and bitmap_closed_on_every_bitmap (Bitmap.Mesh: every segment end has one outgoing and one incoming segment, every image up to 15998 pixels per side - the bound is the model's 16-bit packing of quarter-pixel coordinates) from the 65 536 kernel-decided windows",
         "coarse-to-fine: the documented contract is READ as: with E*smallDelta <= extraSpace every fine sign-change cell within E fine steps + one coarse spacing (max-norm) of a coarse sign-change cell must be meshed (seenAll2/3 m (m+E)); solids violating it are not compared (the documented limitation of C2F). Hypotheses of the c2f theorems not proved about the code: the filter keeps a block whenever a coarse-mesh vertex lies in its expanded bounds (completeness of RectCollision: C07/C08), the real coarse mesh has a vertex on every coarse sign-change cell (M3d.C12.coarse_mixed_cell_has_vertex2/3, c2f_search_stays_on_edge; checked per case by C12's *-hverts kinds), integer spacing ratios; float rounding of bounds is absorbed by the slack (2*sqrt(3)-2)*bigDelta",
         "MECHANISED (3-D, second half): mc_fans_one_cycle_on_every_lattice - for every lattice size, labelling with empty outer layer and position V the link of V in the assembled mesh is empty or ONE simple closed cycle (no vertex pinches two sheets), from the kernel-decided mcFanLocalOk (256 rows x 12 edges: the fan is a simple path from its start face to its end face, counter-clockwise about inside->outside) and mc_edges_balanced_on_every_lattice; the orientation clause (normals from the contained to the excluded side) is the per-cell kernel-decided mc_fan_is_outward_path - a triangle's orientation is decided inside its cell",
         "MECHANISED (searched members): for every lattice, labelling with empty outer layer, lattice origin, spacing > 0, solid (an arbitrary Bool-valued function of the point) and iteration count, the mesh of MarchingCubesSearch / SearchFilter / Interior / C2F's search step (model M3d.C01Search.searchMesh over C02's bisection model M3d.Bisect.mcSearchPoint) is edge-balanced and every vertex fan is one cycle, "
         "and the MarchingSquaresSearch outline is closed, because the searched vertex lies strictly inside its lattice edge (search_vertex_strictly_inside_edge) and the vertex map is therefore injective (search_positions_distinct); the bisection loop itself is tied bit-for-bit by C02, here only through the snapped comparison",
-        "Conj members: only orientation-preserving transforms are generated - with an orientation-reversing transform (a mirror image) MarchingCubesConj / MarchingSquaresConj return the surface inside out, which their documentation ('applies the inverse to the resulting mesh') arguably describes; not flagged (notes/C01.md)",
+        "Conj members (after /repo d1d50a8): MECHANISED for every injective map back: closed manifold whatever the sign test decides; for every invertible AFFINE map back (Translate, Scale, VecScale, Matrix3Transform, their inverses and joins): the sign test of the code (signed volume / area of the mapped mesh, measured from any of its vertices) reverses the faces exactly when the map reverses orientation, and the normals point the way they did in the transformed space - given that the searched mesh of the transformed solid is closed (proved) and has positive signed volume (NOT mechanised for all lattices: per cell mc_fan_is_outward_path / ms_role_rule; the total is computed exactly by the driver on every case). Non-affine transforms (toolbox3d squeezes / pinches) are covered by the closedness theorems only; the harness generates affine lists",
         "MECHANISED (box sets, ExactMesh): for every history of Add/Remove/AddRectSet/RemoveRectSet of boxes of positive extent the uniqueQuads loop keeps exactly the faces of stored boxes that no other stored box has, a shared face is the face between two adjacent cells, the result is a CLOSED surface (every directed triangle side as often as its reverse, exactmesh_is_closed), and the listed quads face away from their box; NewMeshRect (3-D, 2-D) is a closed outward manifold for every box of positive extent (mesh_rect_is_closed_manifold, mesh_rect2_is_closed) "
         "(exactmesh_*; representation invariant from C04: M3d.RectSet.hinv). NOT mechanised: the singular edge / vertex repair of Mesh() (FixSingularEdges / FixSingularVertices, float geometry) - judged per instance by M3d.RectSpec; the state of the real RectSet is compared with the model of the operations by C04's kind rs, here only through ExactMesh()",
         "parametric generators (polar/cylinder/cone/torus/polytope/rect-set/height-map/profile): judged per generated instance by the proved deciders (seam/pole vertex coincidence is float equality of sin/cos results), not proved for all parameters; RectSet.Mesh additionally by M3d.RectSpec (soundness of its margins - samples >= gap/3 from grid planes, probes gap/4 long, pull <= 0.1*gap - is a written argument in the file header)",
@@ -81,7 +83,7 @@ PROP = dict(
         "outward winding, all 65 536 4x4 pixel windows) about tables REGENERATED from /repo on every run, so an edit to baseTriangleTable, the rotation machinery, the first-rotation-wins rule or the "
         "inverse-row generation re-runs every theorem; mechanised local-to-global lifts for marching squares (in/out degree one), bitmap outlining (in/out degree one) and marching cubes (edge balance AND one cycle per vertex fan) on every lattice, edge balance carried over to "
         "MarchingSquaresC2F/MarchingCubesC2F for every spacing ratio, solid and extraSpace under the documented cover, with the margin as written in the source (regenerated) proved sufficient; proved "
-        "the searched variants (Search / SearchFilter / Interior / Conj / MarchingSquaresSearch) for every solid and iteration count via injectivity of the vertex map; RectSet.ExactMesh's face cancellation and closedness for every history of box operations; NewMeshRect for every box; proved "
+        "the searched variants (Search / SearchFilter / Interior / MarchingSquaresSearch) for every solid and iteration count via injectivity of the vertex map; the Conj variants closed for every injective map back and outward for every invertible affine transform list, mirror images included (the reversal decided by the sign of the mapped volume); RectSet.ExactMesh's face cancellation and closedness for every history of box operations; NewMeshRect for every box; proved "
         "manifold deciders for real outputs; plus exact correspondence of whole-lattice meshes with the real marching cubes/squares/bitmap/coarse-to-fine code and verdicts on real outputs of all other "
         "mesh generators (box sets also against the union of the boxes as a point set: orientation per triangle, winding numbers, volume)."
     ),
